@@ -120,6 +120,21 @@ Proof. exact history_votes. Qed.
 Print Assumptions C18_tallies_are_sums_of_single_votes.
 
 (** ------------------------------------------------------------------ clause 3: the fee *)
+(** propose: exactly the configured fee moves from the proposer into escrow; the new proposal takes
+    the next id and snapshots the current quorum / delay / period / withdraw percentage and block *)
+Theorem C18_propose : forall g c tok amt nact gas g' o,
+  ep_propose g c tok amt nact gas = Ok (g', o) ->
+  is_sc c = false /\ tok = FEE_TOK /\ amt = g_min_fee g /\ g_min_energy g <= energy_of g c /\
+  o = [nprops g + 1] /\
+  get_prop g' (nprops g + 1) =
+    Some (mkProp true c amt (g_quorum g) (g_delay g) (g_period g) (g_wpct g) 0 (g_block g) false 0 0 0 0 0) /\
+  (forall id p, get_prop g id = Some p -> get_prop g' id = Some p) /\
+  bal g' SELF = bal g SELF + amt /\ bal g' c = bal g c - amt /\
+  (forall a, a <> SELF -> a <> c -> bal g' a = bal g a) /\
+  g_burned g' = g_burned g /\ g_voted g' = g_voted g.
+Proof. exact propose_fee. Qed.
+Print Assumptions C18_propose.
+
 (** cancel: proposer only, Pending only; the whole fee goes back to the proposer, nothing is burned,
     no other account moves, the proposal is cleared (status None from then on) *)
 Theorem C18_cancel : forall g c id g' o, GovInv g -> ep_cancel g c id = Ok (g', o) ->
